@@ -181,6 +181,46 @@ type shScalarField struct {
 	Ns []shNumber `( "," @@ )*`
 }
 
+// a union member with a field whose production is a function registered with ParseTypeWith
+type shCustomVal interface{}
+
+func parseShCustomVal(lex *lexer.PeekingLexer) (shCustomVal, error) {
+	t := lex.Peek()
+	if t.EOF() {
+		return nil, participle.NextMatch
+	}
+	lex.Next()
+	return t.Value, nil
+}
+
+type shStmt interface{ shStmt() }
+type shAssign struct {
+	Name string      `@Ident "="`
+	Val  shCustomVal `@@`
+}
+type shCall struct {
+	Fn string `@Ident "(" ")"`
+}
+
+func (shAssign) shStmt() {}
+func (shCall) shStmt()   {}
+
+type shProgram struct {
+	Stmts []shStmt `@@*`
+}
+
+// stray input after the expression of a struct that refers to itself (directly; through another struct)
+type shRecStray struct {
+	Name string        `@Ident`
+	Kids []*shRecStray `( "(" @@* ")" )? )`
+}
+type shMutA struct {
+	B *shMutB `"a" @@?`
+}
+type shMutB struct {
+	A *shMutA `"b" @@? ]`
+}
+
 type shIface struct {
 	I interface{ Foo() } `@@`
 }
@@ -545,6 +585,23 @@ func shapeRun(args []string) error {
 		}
 		return nil
 	})
+	run("union-member-with-custom-field", func() error {
+		for i, opts := range [][]participle.Option{
+			{participle.Union[shStmt](shAssign{}, shCall{}), participle.ParseTypeWith(parseShCustomVal)},
+			{participle.ParseTypeWith(parseShCustomVal), participle.Union[shStmt](shCall{}, shAssign{})},
+		} {
+			p, err := participle.Build[shProgram](opts...)
+			if err != nil {
+				return fmt.Errorf("option order %d: %w", i, err)
+			}
+			if v, err := p.ParseString("", "f ( ) x = 7"); err != nil || len(v.Stmts) != 2 {
+				return fmt.Errorf("union member with a ParseTypeWith field: %+v %v", v, err)
+			}
+		}
+		return nil
+	})
+	run("recursive-stray-token", func() error { _, err := participle.Build[shRecStray](); return err })
+	run("mutual-recursive-stray-token", func() error { _, err := participle.Build[shMutA](); return err })
 	run("embedded-foreign-tag", func() error {
 		p, err := participle.Build[shEmbForeignTag]()
 		if err != nil {
